@@ -1038,6 +1038,12 @@ func DecodeCashAddress(str string) (string, []byte, error) {
 		return "", nil, ErrChecksumMismatch
 	}
 
+	// The payload must at least hold the eight checksum symbols.  A string
+	// can carry a valid checksum over fewer symbols than that.
+	if len(values) < 8 {
+		return "", nil, errors.New("address payload is too short")
+	}
+
 	return prefix, values[:len(values)-8], nil
 }
 
